@@ -33,9 +33,14 @@ def charge_pattern_loop(prog):
 
 def charge_map(prog, ev=None):
     """{letter: Fraction(-1|0|1)} as built by the constructor, decided per letter through
-    lkupTab.lookUpCharge -> lookForRes -> residue_table -> Residue.charge -> skeleton column"""
+    lkupTab.lookUpCharge -> lookForRes -> residue_table -> Residue.charge -> skeleton column.
+    Two shapes: a loop that grows a local pattern which is then stored, or a direct store of a per-residue expression
+    (comprehension over the sequence, possibly through a module-level sign table) - both evaluated by the same per-letter case split."""
     ev = ev or Evaluator(prog)
-    f, loop, guards = charge_pattern_loop(prog)
+    try:
+        f, loop, guards = charge_pattern_loop(prog)
+    except Undecided:
+        return _charge_map_direct(prog, ev)
     env = {"self": ObjV("Sequence"), "chargePattern": ListAcc([]), "seq": SeqV("seq")}
     fr = _Frame(f, 0)
     res = ev.exec_for(loop, Path([], "live", None, env), fr)
@@ -55,6 +60,25 @@ def charge_map(prog, ev=None):
     if not stored:
         raise Undecided("constructor no longer stores the pattern it built", f.loc())
     return dict(table), f, loop
+
+
+def _charge_map_direct(prog, ev):
+    f = prog.fn(SEQ, "Sequence.__init__")
+    guards = [s for s in f.body() if isinstance(s, ast.If) and "chargePattern" in unparse(s.test)
+              and any(isinstance(n, ast.Assign) and any(is_self_attr(t, "chargePattern") for t in n.targets) for b in s.body for n in ast.walk(b))]
+    if len(guards) != 1:
+        raise Undecided("expected exactly one chargePattern-building loop in Sequence.__init__, found 0 (and %d guarded direct stores)" % len(guards), f.loc())
+    g = guards[0]
+    env = {"self": ObjV("Sequence"), "chargePattern": ListAcc([]), "seq": SeqV("seq")}
+    fr = _Frame(f, 0)
+    res = ev.exec_block(g.body, [Path([], "live", None, env)], fr)
+    live = [p for p in res if p.kind == "live"]
+    if len(live) != 1:
+        raise Undecided("the branch that derives the charge pattern does not complete on exactly one path", f.loc(g))
+    v = live[0].env.get("@self.chargePattern")
+    if not (isinstance(v, SeqV) and v.kind == "map"):
+        raise Undecided("the derived charge pattern is not a per-residue map of the sequence (%r)" % (v,), f.loc(g))
+    return dict(ev.eltables[v.elkey]), f, g
 
 
 def symbol_charges(prog, ev=None):
